@@ -270,10 +270,12 @@ theorem sinv_gSel {s s' : St} {i p : Nat} {k h prog held} (hinv : SInv s) (ht : 
     simp only [Option.some.injEq] at hstep; subst hstep
     refine SInv_frame hinv ht rfl (Or.inl rfl) ⟨rfl, rfl, fun x => closed_set_buf hch rest x⟩ rfl (by simp) ?_
     simp only [PcOK, setTask, List.length_set]; exact hpc
-  · simp only [Option.some.injEq] at hstep; subst hstep
-    exact SInv_frame hinv ht rfl (Or.inl rfl) (frame_miss ..) rfl (by simp) trivial
-  · simp only [Option.some.injEq] at hstep; subst hstep
-    exact SInv_frame hinv ht rfl (Or.inl rfl) (frame_miss ..) rfl (by simp) trivial
+  · split at hstep <;> (simp only [Option.some.injEq] at hstep; subst hstep)
+    · exact SInv_frame hinv ht rfl (Or.inl rfl) ⟨rfl, rfl, fun _ => rfl⟩ rfl (by simp) trivial
+    · exact SInv_frame hinv ht rfl (Or.inl rfl) (frame_miss ..) rfl (by simp) trivial
+  · split at hstep <;> (simp only [Option.some.injEq] at hstep; subst hstep)
+    · exact SInv_frame hinv ht rfl (Or.inl rfl) ⟨rfl, rfl, fun _ => rfl⟩ rfl (by simp) trivial
+    · exact SInv_frame hinv ht rfl (Or.inl rfl) (frame_miss ..) rfl (by simp) trivial
   · rename_i hr
     exfalso
     unfold recv at hr
